@@ -16,12 +16,12 @@ macro_rules! instances {
 
 /// records everything a `Hash` impl feeds to the hasher
 pub(crate) struct Transcript {
-    pub buf: [u8; 48],
+    pub buf: [u8; 64],
     pub len: usize,
 }
 impl Transcript {
     pub fn new() -> Self {
-        Transcript { buf: [0; 48], len: 0 }
+        Transcript { buf: [0; 64], len: 0 }
     }
     pub fn same(&self, o: &Transcript) -> bool {
         if self.len != o.len {
@@ -41,7 +41,7 @@ impl Hasher for Transcript {
     fn write(&mut self, bytes: &[u8]) {
         let mut i = 0;
         while i < bytes.len() {
-            assert!(self.len < 48, "transcript bound");
+            assert!(self.len < 64, "transcript bound");
             self.buf[self.len] = bytes[i];
             self.len += 1;
             i += 1;
@@ -77,6 +77,23 @@ fn key_coherence(ty_i: usize, id_i: usize, ty_j: usize, id_j: usize) {
     assert!(t_owned.same(&t_dyn_borrowed), "C01 owned and borrowed forms of one key feed the hasher identically");
     assert!(t_owned.same(&t_dyn_owned) && t_owned.same(&t_borrowed), "C01 all key forms feed the hasher identically");
     assert!(t_owned.len > 0, "the hash depends on something");
+}
+/// the same coherence for a LONG id (hashing must not depend on a prefix / suffix / length class of the id)
+const LONG: &str = "dir.sub.another_directory.some_asset_name"; // 41 bytes
+fn key_coherence_long() {
+    let o = OwnedKey::new_with(LONG.into(), tid(0));
+    let b = BorrowedKey::new_with(LONG, tid(0));
+    let (od, bd): (&dyn Key, &dyn Key) = (&o, &b);
+    assert!(od == bd, "C01/C02 key equality for a long id");
+    let (t_owned, t_dyn_owned, t_borrowed, t_dyn_borrowed) = (tr(&o), tr(od), tr(&b), tr(bd));
+    assert!(t_owned.len == 8 + LONG.len() + 1, "the whole id is hashed");
+    assert!(t_owned.same(&t_dyn_borrowed) && t_owned.same(&t_dyn_owned) && t_owned.same(&t_borrowed), "C01 owned and borrowed forms of one key feed the hasher identically, whatever the length of the id (otherwise look-ups miss what insert stored)");
+}
+#[cfg_attr(kani, kani::proof)]
+#[cfg_attr(amv_replay, test)]
+#[cfg_attr(kani, kani::unwind(60))]
+pub(crate) fn c01_k5_key_long_id() {
+    key_coherence_long()
 }
 instances! {
     c01_k5_key_same => key_coherence(0, 0, 0, 0);
